@@ -88,3 +88,56 @@ Theorem C02_filtered_is_select_then_filter :
   = map (fun ev => Z.of_nat (List.length ev)) (kept f (l_events (sliced tok_float tok_int pdg_valid d fmt attrs a n))).
 Proof. exact filtered_is_select_then_filter. Qed.
 Print Assumptions C02_filtered_is_select_then_filter.
+
+(* ---- the particle-object storer (Model/PObj.v; the filter chain is ANY, possibly raising, function of one event) ---- *)
+From SX Require Import Lib.Py Model.PObj Proofs.C02_PObj.
+
+(* events=(a,b) is the slice a..b of the unrestricted construction: same events in order, b-a+1 events, the selected
+   rows of the count table under their original labels - with or without a constructor filter *)
+Theorem C02_pobj_range :
+  forall (P : Type) (flt : option (list P -> Py.result (list P))) evs full (a b : Z),
+  pload P flt PAll evs = Py.Ok full -> (0 <= a <= b)%Z -> (b < Z.of_nat (List.length evs))%Z ->
+  pload P flt (PRange a b) evs =
+    Py.Ok {| p_events := pslice a b (p_events P full); p_nevents := (b + 1 - a)%Z;
+             p_counts := pslice a b (p_counts P full) |}.
+Proof. exact pobj_range_is_slice. Qed.
+Print Assumptions C02_pobj_range.
+
+Theorem C02_pobj_single :
+  forall (P : Type) (flt : option (list P -> Py.result (list P))) evs (k : Z),
+  (0 <= k)%Z -> (k < Z.of_nat (List.length evs))%Z ->
+  pload P flt (POne k) evs = pload P flt (PRange k k) evs.
+Proof. exact pobj_single_is_range. Qed.
+Print Assumptions C02_pobj_single.
+
+Theorem C02_pobj_counts :
+  forall (P : Type) (flt : option (list P -> Py.result (list P))) s evs st,
+  pload P flt s evs = Py.Ok st ->
+  p_nevents P st = Z.of_nat (List.length (p_events P st)) /\
+  map snd (p_counts P st) = map (fun e => Z.of_nat (List.length e)) (p_events P st) /\
+  (forall i c, nth_error (p_counts P st) i = Some c -> fst c = (pfirst s + Z.of_nat i)%Z).
+Proof. exact pobj_counts_consistent. Qed.
+Print Assumptions C02_pobj_counts.
+
+Theorem C02_pobj_select_then_filter :
+  forall (P : Type) (f : list P -> Py.result (list P)) s evs st0,
+  pload P None s evs = Py.Ok st0 ->
+  pload P (Some f) s evs =
+    rbind (mapr f (p_events P st0)) (fun held =>
+      Py.Ok {| p_events := held; p_nevents := Z.of_nat (List.length held); p_counts := label_from P (pfirst s) held |}).
+Proof. exact pobj_select_then_filter. Qed.
+Print Assumptions C02_pobj_select_then_filter.
+
+Theorem C02_pobj_invalid_selector :
+  forall (P : Type) (flt : option (list P -> Py.result (list P))) evs,
+  (forall k, (k < 0)%Z -> pload P flt (POne k) evs = Py.Err Py.ValueError) /\
+  (forall a b, (b < a \/ a < 0 \/ b < 0)%Z -> pload P flt (PRange a b) evs = Py.Err Py.ValueError) /\
+  (forall k, (Z.of_nat (List.length evs) <= k)%Z -> pload P flt (POne k) evs = Py.Err Py.IndexError).
+Proof. exact pobj_invalid_selector. Qed.
+Print Assumptions C02_pobj_invalid_selector.
+
+Theorem C02_pobj_example :
+  pload nat (Some (fun e => Py.Ok (filter Nat.even e))) (PRange 1 2) [[1;2]; [3;4;6]; []; [8]]%nat
+  = Py.Ok {| p_events := [[4;6]; []]%nat; p_nevents := 2; p_counts := [(1, 2); (2, 0)]%Z |}.
+Proof. exact pobj_example. Qed.
+Print Assumptions C02_pobj_example.
